@@ -37,6 +37,7 @@ META = {
 
 
 def run(rep):
+    rep.run(degenerate_cases_on_S)
     from ..rules import walk as _Wv
     rep.run(_Wv.view_is_complete, "O17.1")
     from ..rules import walk as _W
@@ -386,6 +387,26 @@ def lp_sites(rep):
     for o in others:
         rep.note(f"C17 sweep: further linprog site {o} (belongs to no listed property)")
     rep.extra["linprog_sites_elsewhere_in_CRN"] = others
+
+
+def degenerate_cases_on_S(rep):
+    """the trivial cases of the two decisions (no reaction / no species) are decided on the shape of the network's own S: the matrix is not filtered or
+    re-bound before its shape is taken (a network whose every reaction is a null reaction has S = 0 with n_reactions > 0 and IS consistent)"""
+    for q in ("is_consistent", "is_conservative"):
+        fi = rep.repo.maybe_func(ST, q)
+        if fi is None:
+            continue
+        d = local_defs(fi.node)
+        shp = [x for nm, xs in d.items() for x in xs if x.index is not None and isinstance(x.value, ast.Attribute) and x.value.attr == "shape" and isinstance(x.value.value, ast.Name)]
+        if not shp:
+            continue
+        Sname = shp[0].value.value.id
+        line = min(x.stmt.lineno for x in shp)
+        before = [x for x in d.get(Sname, []) if x.kind != "param" and getattr(x.stmt, "lineno", 0) < line]
+        ok = len(before) == 1 and isinstance(before[0].value, ast.Call) and call_name(before[0].value) in ("stoichiometric_matrix", "build_S", "asarray", "array")
+        extra = [x for x in before if not (isinstance(x.value, ast.Call) and call_name(x.value) in ("stoichiometric_matrix", "build_S", "asarray", "array"))]
+        rep.ob("O17.3", "SHAPE", fi, ok, extra[0].stmt if extra else shp[0].stmt, f"{q}: the degenerate cases are decided on the shape of the network's own S "
+               "(S is not filtered / re-bound before `S.shape` is read)", node=extra[0].stmt if extra else shp[0].stmt)
 
 
 def witnesses(rep):
